@@ -103,6 +103,22 @@ def strand_decisions(ck, pc, calls):
         if pa.outcome not in ("return", "fall"):
             continue
         n_paths += 1
+        v0 = pa.value if pa.outcome == "return" else None
+        if v0 is not None and v0[0] == "comp" and len(v0[3]) == 1 and v0[2][0] == "bv" and v0[3][0][0][0] in ("tuple", "list") and \
+                v0[3][0][1] and set(v0[3][0][0][1]) == set(corr.values()):
+            # return [c for c in (forward, reverse) if <test>(c)]: each strand is offered under the test on its own correlation -
+            # the two decisions the yields of the pinned code take one after the other
+            conds = [T.substitute(c0, {v0[2]: HOLE}) for c0 in v0[3][0][1]]
+            if any(T.contains(c0, corr[st]) for c0 in v0[3][0][1] for st in corr):
+                raise AnalysisError(f"{where(pc, pa.node)}: the filter of the returned seeds mentions a strand's correlation directly")
+            for st in corr:
+                for tv0 in (True, False):
+                    key = frozenset((c0, tv0) for c0 in conds) if len(conds) == 1 else None
+                    if key is None:
+                        raise AnalysisError(f"{where(pc, pa.node)}: the seeds are filtered by more than one condition: not in the vocabulary")
+                    tables[st][key] = tv0
+            n_paths += 3          # stands for the four outcome combinations of the two tests
+            continue
         handed_back = list(pa.value[1]) if pa.outcome == "return" and pa.value is not None and pa.value[0] in ("list", "tuple") else []
         offered = {st: any(e.kind == "yield" and e.term == corr[st] for e in pa.events) or corr[st] in handed_back for st in corr}
         guards = {st: [] for st in corr}
